@@ -7,12 +7,10 @@
 
    * no lost wake-up: a block with queued pending waiters (futures of cancelled acquire() calls
      that still sit in the deque do not count) never has more idle connections on its stack
-     than successful wake-ups already scheduled in the event loop for it; hence when the loop
-     is quiescent no block has both an idle connection and a pending waiter.  This holds for
-     runs ([reachN]) in which callers may cancel acquire() at any time EXCEPT in the window
-     between the completion of the task's waiter future and the task's resumption: that
-     window loses the wake-up in the real code (Refuted.v, known finding
-     C16-cancel-after-wakeup-loses-wakeup);
+     than wake-ups already scheduled in the event loop for it (a task cancelled after its
+     waiter was completed counts: since fix 7b54f16 it passes the wake-up on); hence when the
+     loop is quiescent no block has both an idle connection and a pending waiter.  Callers
+     may cancel a pending acquire() at any time (event ECancel);
    * retry-or-abort: processing a failed connect either schedules exactly one new connect for
      the same block (keeping its waiters and its pending count) or - after
      CONNECT_FAILURE_RETRIES, immediately on error 3D000 - fails every queued waiter of the block.
@@ -25,20 +23,15 @@ From Verif.Pool Require Import Model Proofs.
 Import ListNotations.
 Open Scope Z_scope.
 
-Theorem C16_no_lost_wakeup : forall mx s b, 0 <= mx -> reachN mx s -> In b s.(blocks) ->
+Theorem C16_no_lost_wakeup : forall mx s b, 0 <= mx -> reach mx s -> In b s.(blocks) ->
   has_pending b.(b_waiters) = true -> zlen b.(b_stack) <= nwok s b.(b_id).
 Proof. exact p_no_lost_wakeup. Qed.
 Print Assumptions C16_no_lost_wakeup.
 
-Theorem C16_quiescent_no_idle_with_waiters : forall mx s b, 0 <= mx -> reachN mx s -> In b s.(blocks) ->
+Theorem C16_quiescent_no_idle_with_waiters : forall mx s b, 0 <= mx -> reach mx s -> In b s.(blocks) ->
   s.(ready) = [] -> has_pending b.(b_waiters) = false \/ b.(b_stack) = [].
 Proof. exact p_quiescent_no_idle_with_waiters. Qed.
 Print Assumptions C16_quiescent_no_idle_with_waiters.
-
-(* [reachN] only restricts cancels; every safety theorem of C15 holds for all of [reach] *)
-Theorem C16_reachN_reach : forall mx s, reachN mx s -> reach mx s.
-Proof. exact reachN_reach. Qed.
-Print Assumptions C16_reachN_reach.
 
 (* [connect_wake i None nodb s] is BasePool._connect resuming after the connect callback raised *)
 Theorem C16_retry_or_abort : forall s i b nodb,
@@ -75,9 +68,9 @@ Definition o0 : oracle := mkOracle [] [] [] false [].
 Definition ex_trace : list (event * oracle) :=
   [(EAcquire 1 1, o0); (ERun, o0); (ERun, o0); (EConnOk 1, o0); (ERun, o0)].
 Definition ex_state : pool := Eval vm_compute in match run (init 1) ex_trace with Some s => s | None => init 0 end.
-Example ex_wakeup : exists b, reachN 1 ex_state /\ In b ex_state.(blocks) /\ b.(b_waiters) = [] /\
+Example ex_wakeup : exists b, reach 1 ex_state /\ In b ex_state.(blocks) /\ b.(b_waiters) = [] /\
   b.(b_stack) = [1%N] /\ nwok ex_state b.(b_id) = 1.
 Proof.
-  eexists. split; [apply (runN_reachN 1 ex_trace (init 1)); [apply reachN_init|vm_compute; reflexivity]|].
+  eexists. split; [apply (run_reach 1 ex_trace (init 1)); [apply reach_init|vm_compute; reflexivity]|].
   split; [vm_compute; left; reflexivity|vm_compute; repeat split].
 Qed.
